@@ -4,9 +4,9 @@
    pcbasic/basic/memory/arrays.py on every run (gen/Gen_arrays.v); allocate / check_dim / erase_ /
    option_base_ / elem_get / elem_set are the hand model (model/Arrays.v) tied by correspondence. *)
 From Coq Require Import ZArith List Lia.
-From PCB Require Import lib.Result lib.PyInt gen.Gen_arrays model.Arrays.
+From PCB Require Import lib.Result lib.PyInt gen.Gen_arrays model.Arrays model.ArraySpec.
 From PCB Require Import proofs.Arrays_index_proofs proofs.Arrays_list_proofs proofs.Arrays_proofs
-  proofs.Arrays_rules_proofs proofs.Arrays_history_proofs.
+  proofs.Arrays_rules_proofs proofs.Arrays_history_proofs proofs.ArraySpec_proofs.
 Import ListNotations.
 Open Scope Z_scope.
 
@@ -115,6 +115,14 @@ Print Assumptions C12_invariant.
 Theorem C12_read_after_write : forall ops, Forall aop_ok ops -> arun a_init ops = rrun a_init [] ops.
 Proof. intros ops H. exact (run_refines ops a_init [] AInv_init agrees_init H). Qed.
 Print Assumptions C12_read_after_write.
+
+(* ... and against an INDEPENDENT specification (model/ArraySpec.v: shapes, OPTION BASE state, error rules,
+   memory need by plain arithmetic, values in the finite map; it shares no definition with the model or
+   the regenerated code): on every history the implementation model produces exactly the spec's outputs,
+   errors included.  aop_ok2 = aop_ok + assigned values have the size of the element type. *)
+Theorem C12_meets_spec : forall ops, Forall aop_ok2 ops -> arun a_init ops = srun sp_init [] ops.
+Proof. exact impl_meets_spec. Qed.
+Print Assumptions C12_meets_spec.
 
 (* non-vacuity: a concrete history (DIM two arrays, write, read, out of range, ERASE, re-DIM) *)
 Example C12_nonvacuous :
